@@ -25,7 +25,8 @@ ENTRY = {
                 "every foreign key lands in its parent's key range for every stream and every positive size (model with switches off); counts are floor(ratio*sf) and keep "
                 "the exact TPC-H ratios when 10000*sf is an integer; the composite (l_partkey,l_suppkey) key of the index-derived scheme exists in partsupp IFF "
                 "lineitems <= partsupp or lcm(parts,suppliers) <= partsupp; purity. Tied to the code by byte-identical repeated / concurrent / Parquet generations and by "
-                "checking every generated key column. The unchanged tree violates the FK clause in two listed ways (C39-F1 o_custkey range, C39-F2 partsupp composite key).",
+                "checking every generated key column. Open known finding C39-F1: o_custkey is drawn from 1..=1.5*customers (a deliberate, commented choice of the generator), so about a third of the orders "
+                "reference no customer. C39-F2 (partsupp composite key broken for truncating scale factors) was repaired by fix: commit 169f5ae; its witness is replayed from corpus/C39.",
         "design_ref": "DESIGN.md §6 C39",
         "level_note": "Trusted: Lean kernel; axioms propext/Classical.choice/Quot.sound; hand-written model of the key expressions; rand crate (stream arbitrary in the "
                       "theorems); harness generators; Arrow IPC / Parquet for comparisons. Non-key columns are covered by the byte-identity runs only.",
